@@ -9,16 +9,16 @@ WT="$(mktemp -d /tmp/confirm-XXXXXX)"; rmdir "$WT"
 TC=/root/go/pkg/mod/golang.org/toolchain@v0.0.1-go1.24.0.linux-amd64/bin
 export PATH="$TC:$PATH" GOTOOLCHAIN=local GOSUMDB=off GOFLAGS=-mod=mod GOPROXY=off
 git -C /repo worktree add --detach "$WT" HEAD >/dev/null 2>&1 || { echo "worktree failed"; exit 2; }
-cleanup() { git -C /repo worktree remove --force "$WT" >/dev/null 2>&1; rm -rf "$WT"; }
+cleanup() { git -C /repo worktree remove --force "$WT" >/dev/null 2>&1; rm -rf "$WT" "$WT.clean.log" "$WT.patched.log"; }
 trap cleanup EXIT
 res=""
-( cd "$D" && MOQ_SRC="$WT" bash ./demo.sh >/tmp/confirm-demo-clean.log 2>&1 ); c=$?
+( cd "$D" && MOQ_SRC="$WT" bash ./demo.sh >"$WT.clean.log" 2>&1 ); c=$?
 res="$res clean_demo_exit=$c"
 git -C "$WT" apply "$D/patch.diff" || { echo "patch does not apply"; exit 2; }
 ( cd "$WT" && go build ./... ) || { echo "does not compile"; exit 2; }
 fails=$(cd "$WT" && go test -count=1 ./... 2>&1 | grep -E '^--- FAIL' | sort | tr '\n' ' ')
 res="$res tests_failing=[$fails]"
-( cd "$D" && MOQ_SRC="$WT" bash ./demo.sh >/tmp/confirm-demo-patched.log 2>&1 ); p=$?
+( cd "$D" && MOQ_SRC="$WT" bash ./demo.sh >"$WT.patched.log" 2>&1 ); p=$?
 res="$res patched_demo_exit=$p"
 echo "$res"
 if [ "$c" = 0 ] && [ "$p" != 0 ] && [ "$fails" = "--- FAIL: TestGoGenerateVendoredPackages (0.01s) " -o "$fails" = "--- FAIL: TestGoGenerateVendoredPackages (0.00s) " -o "$fails" = "--- FAIL: TestGoGenerateVendoredPackages (0.02s) " ]; then echo CONFIRMED; exit 0; fi
